@@ -415,6 +415,17 @@ func (h *hist) settle(all []concKey) {
 		}
 		time.Sleep(100 * time.Microsecond)
 	}
+	// every entry that is valid now is in the table (after concurrent changes the table may have been
+	// built from an intermediate value of the option: wait for the reload that read the final one)
+	for _, k := range all {
+		for k.counted && (k.expires.IsZero() || time.Until(k.expires) > time.Minute) && !api.VerifHasAPIKey(k.key) {
+			if time.Now().After(deadline) {
+				h.infra = "key table not reloaded from the final option value within 5 s"
+				return
+			}
+			time.Sleep(100 * time.Microsecond)
+		}
+	}
 	get := config.GetAsStringArray(api.CfgAPIKeys, nil)
 	for {
 		now := time.Now()
@@ -465,7 +476,24 @@ func (h *hist) avoidEdge() {
 	}
 }
 
-func (h *hist) setKeys(ents []keyEnt) error {
+// errConfigHang reports a configuration change that did not return: the process cannot go on (the calling
+// goroutine is stuck inside the config package); the event is recorded and the process exits with status 5.
+var errConfigHang = errors.New("timeout")
+
+const configTimeout = 20 * time.Second
+
+func setOption(key string, value any) error {
+	done := make(chan error, 1)
+	go func() { done <- config.SetConfigOption(key, value) }()
+	select {
+	case err := <-done:
+		return err
+	case <-time.After(configTimeout):
+		return errConfigHang
+	}
+}
+
+func (h *hist) setKeys(ents []keyEnt, storm *bool) error {
 	h.avoidEdge()
 	h.gen++
 	h.prevKeys = h.keys
@@ -523,12 +551,48 @@ func (h *hist) setKeys(ents []keyEnt) error {
 	}
 	h.sentinel = fmt.Sprintf("sentinel-%d-%s", h.gen, randStr(h.rnd, 12, alnum))
 	vals = append(vals, h.sentinel+"?read=user", "?read=admin&write=admin", "%zz?read=admin")
-	if err := config.SetConfigOption(api.CfgAPIKeys, vals); err != nil {
-		return err
+	if storm == nil {
+		if err := setOption(api.CfgAPIKeys, vals); err != nil {
+			return err
+		}
+	} else {
+		// two callers change the two options at the same time, several times; the last values stand
+		errs := make(chan error, 2)
+		go func() {
+			var err error
+			for i := 0; i < stormRounds && err == nil; i++ {
+				v := vals
+				if i < stormRounds-1 && i%2 == 1 {
+					v = vals[len(vals)-3:]
+				}
+				err = setOption(api.CfgAPIKeys, v)
+			}
+			errs <- err
+		}()
+		go func() {
+			var err error
+			for i := 0; i < stormRounds && err == nil; i++ {
+				val := i%2 == 0
+				if i == stormRounds-1 {
+					val = *storm
+				}
+				err = setOption(config.CfgDevModeKey, val)
+			}
+			errs <- err
+		}()
+		e1, e2 := <-errs, <-errs
+		if e1 != nil {
+			return e1
+		}
+		if e2 != nil {
+			return e2
+		}
 	}
 	h.settle(h.keys)
 	return nil
 }
+
+const stormRounds = 24
 
 // intact reports whether the key option still holds what this history configured last: a clean-up
 // microtask of the api package that was scheduled for an older configuration and ran late would have
@@ -548,7 +612,7 @@ func (h *hist) intact() bool {
 
 func (h *hist) setDev(on bool) error {
 	h.avoidEdge()
-	if err := config.SetConfigOption(config.CfgDevModeKey, on); err != nil {
+	if err := setOption(config.CfgDevModeKey, on); err != nil {
 		return err
 	}
 	h.settle(h.keys)
@@ -850,10 +914,16 @@ func run(tr *vio.Trace, n int, s *script) error {
 	authMu.Lock()
 	authMode, authR, authW = "nil", 1, 1
 	authMu.Unlock()
-	if err := h.setKeys(nil); err != nil {
+	if err := h.setKeys(nil, nil); err != nil {
+		if errors.Is(err, errConfigHang) {
+			tr.EmitRaw(map[string]any{"e": "keys", "h": n, "keys": []keyEnt{}, "err": err.Error()})
+		}
 		return err
 	}
 	if err := h.setDev(false); err != nil {
+		if errors.Is(err, errConfigHang) {
+			tr.EmitRaw(map[string]any{"e": "dev", "h": n, "on": false, "err": err.Error()})
+		}
 		return err
 	}
 	h.prevKeys, h.keys = nil, nil
@@ -866,19 +936,37 @@ func run(tr *vio.Trace, n int, s *script) error {
 			if st.Keys == nil {
 				st.Keys = []keyEnt{}
 			}
-			if err := h.setKeys(st.Keys); err != nil {
+			if err := h.setKeys(st.Keys, nil); err != nil {
+				if errors.Is(err, errConfigHang) {
+					tr.EmitRaw(map[string]any{"e": "keys", "h": n, "keys": st.Keys, "err": err.Error()})
+				}
 				return err
 			}
 			conc := make([]string, len(h.keys))
 			for i, k := range h.keys {
 				conc[i] = k.entry
 			}
-			tr.EmitRaw(map[string]any{"e": "keys", "h": n, "keys": st.Keys, "entries": conc})
-		case "dev":
-			if err := h.setDev(st.On); err != nil {
+			tr.EmitRaw(map[string]any{"e": "keys", "h": n, "keys": st.Keys, "entries": conc, "err": ""})
+		case "storm":
+			if st.Keys == nil {
+				st.Keys = []keyEnt{}
+			}
+			on := st.On
+			if err := h.setKeys(st.Keys, &on); err != nil {
+				if errors.Is(err, errConfigHang) {
+					tr.EmitRaw(map[string]any{"e": "storm", "h": n, "keys": st.Keys, "on": st.On, "err": err.Error()})
+				}
 				return err
 			}
-			tr.EmitRaw(map[string]any{"e": "dev", "h": n, "on": st.On})
+			tr.EmitRaw(map[string]any{"e": "storm", "h": n, "keys": st.Keys, "on": st.On, "err": ""})
+		case "dev":
+			if err := h.setDev(st.On); err != nil {
+				if errors.Is(err, errConfigHang) {
+					tr.EmitRaw(map[string]any{"e": "dev", "h": n, "on": st.On, "err": err.Error()})
+				}
+				return err
+			}
+			tr.EmitRaw(map[string]any{"e": "dev", "h": n, "on": st.On, "err": ""})
 		case "auth":
 			authMu.Lock()
 			authMode, authR, authW = st.Mode, st.R, st.W
@@ -973,6 +1061,11 @@ func main() {
 		return nil
 	})
 	tr.Close()
+	if errors.Is(err, errConfigHang) {
+		// a goroutine is stuck inside the config package: a clean shutdown is not possible
+		fmt.Fprintln(os.Stderr, "config change did not return within", configTimeout)
+		os.Exit(5)
+	}
 	_ = modules.Shutdown()
 	if cleanupDir != "" {
 		_ = os.RemoveAll(cleanupDir)
